@@ -661,6 +661,13 @@ class Executor:
         if op in ("Mul", "MulUnchecked"):
             return VInt(x * y, a.bits, s)
         if op == "Div":
+            if not s and z3.is_bv_value(z3.simplify(y)):
+                # unsigned division by a constant power of two is a shift (same value, much easier for the solver)
+                k_ = z3.simplify(y).as_long()
+                if k_ == 1:
+                    return VInt(x, a.bits, s)
+                if k_ > 0 and (k_ & (k_ - 1)) == 0:
+                    return VInt(z3.LShR(x, z3.BitVecVal(k_.bit_length() - 1, a.bits)), a.bits, s)
             return VInt((x / y) if s else z3.UDiv(x, y), a.bits, s)
         if op == "Rem":
             return VInt(z3.SRem(x, y) if s else z3.URem(x, y), a.bits, s)
